@@ -41,7 +41,12 @@ Record flags := mkFlags {
   fl_done_w : bool;       (* writing component stored by update_file_futures_and_memory             (False) *)
   fl_first : bool;        (* write_applied in the branch that submits the write                     (True)  *)
   fl_second : bool;       (* write_applied in the second-writer branch                              (False) *)
-  fl_touch_if_done : bool (* get_file on a present entry touches the access time only if future.done()      *)
+  fl_touch_if_done : bool;(* get_file on a present entry touches the access time only if future.done()      *)
+  fl_oversize_uncached : bool; (* update_file_futures_and_memory: contents larger than max_memory skip recover_memory
+                             (no assertion) and take the not-cached branch                                    *)
+  fl_else_drops_heap : bool;   (* ... whose not-cached branch also removes the file's access-time item             *)
+  fl_busy_guard : bool    (* update_file waits for (and retries after) an in-flight load instead of unloading its
+                             entry; unload_file leaves an entry whose future is not done alone                  *)
 }.
 
 (* ---------------------------------------------------------------- association lists sorted by key *)
@@ -118,19 +123,20 @@ Fixpoint recover_loop (max claim : Z) (h : list file) (c : core) (wr : list file
 (* update_file_futures_and_memory(file_name, memory_usage): the locked block.
    Some e = the block was left by that exception (partial effects are kept, as in Python). *)
 Definition ufm (fl : flags) (max : Z) (f : file) (mu : Z) (c : core) : core * option exn :=
-  if mu >? max then (c, Some EAssert) else                             (* assert claim <= self.max_memory *)
-  match recover_loop max mu (heap c) c [] with
+  let over := mu >? max in
+  if over && negb (fl_oversize_uncached fl) then (c, Some EAssert) else          (* assert claim <= self.max_memory *)
+  match (if over then (c, heap c, [], false) else recover_loop max mu (heap c) c []) with
   | (c1, rest, wr, keyerr) =>
     if keyerr then (mkCore (mem c1) (futs c1) rest (disk c1), Some EKey) else
     let h2 := wr ++ rest in
-    let can := (mem c1 + mu <=? max) in
+    let can := negb over && (mem c1 + mu <=? max) in
     match lookup f (futs c1) with
     | None => (mkCore (mem c1) (futs c1) h2 (disk c1), Some EAssert)   (* assert info is not None *)
     | Some e =>
         if can then
           (mkCore (mem c1 + mu) (aset f (mkE (fl_done_w fl) mu (e_fut e)) (futs c1)) (touch f h2) (disk c1), None)
         else
-          (mkCore (mem c1) (adel f (futs c1)) h2 (disk c1), None)
+          (mkCore (mem c1) (adel f (futs c1)) (if fl_else_drops_heap fl then remove_file f h2 else h2) (disk c1), None)
     end
   end.
 
@@ -201,7 +207,9 @@ Inductive cpc :=
 | CStart                              (* before the first action of the current operation *)
 | CSize                               (* get_file: exists() said yes, before getsize() *)
 | CLock (claim : Z)                   (* get_file: before its locked block *)
-| CWait (fut : nat) (applied : bool). (* before future.result() *)
+| CWait (fut : nat) (applied : bool)  (* before future.result() *)
+| CRetry (fut : nat)                  (* update_file: before future.exception() of an in-flight load (busy guard) *)
+| CAgain.                             (* update_file: the recursive call after that wait, before its locked block *)
 
 Record client := mkClient { c_ops : list op; c_idx : nat; c_pc : cpc }.
 
@@ -220,6 +228,42 @@ Record gstate := mkG {
 Definition kbit (b : Z) (k : Z) : Z := Z.lor k b.
 
 Definition ret_next (cl : client) : client := mkClient (c_ops cl) (S (c_idx cl)) CStart.
+
+(* busy guard: the entry's future is not done (update_file only cares about non-writing entries) *)
+Definition busy_entry (fl : flags) (ts : list task) (info : option entry) (any_kind : bool) : bool :=
+  fl_busy_guard fl &&
+  match info with
+  | Some e => (any_kind || negb (e_w e)) && negb (task_done ts (e_fut e))
+  | None => false
+  end.
+
+(* the locked block of update_file (first call: ev = [call event]; recursive call after a wait: ev = []) *)
+Definition upd_lock (fl : flags) (s : gstate) (t : nat) (cl : client) (i : nat) (o : op) (f : file) (d : content)
+           (ev : list event) : option gstate :=
+  let c := g_core s in
+  let upd cl' c' ts' k' := Some (mkG c' (set_nth t cl' (g_clients s)) ts' (ev ++ g_hist s) k') in
+  let info := lookup f (futs c) in
+  if busy_entry fl (g_tasks s) info false then
+    match info with
+    | Some e => upd (mkClient (c_ops cl) i (CRetry (e_fut e))) c (g_tasks s) (g_k s)
+    | None => None
+    end
+  else
+  let writer := match info with None => true | Some e => negb (e_w e) end in
+  if writer then
+    let k' := match info with
+              | Some e => if inflight (g_tasks s) e then kbit 1 (g_k s) else g_k s
+              | None => g_k s end in
+    let c1 := unload_core f c in
+    let id := length (g_tasks s) in
+    upd (mkClient (c_ops cl) i (CWait id (fl_first fl)))
+        (mkCore (mem c1) (aset f (mkE (fl_upd_w fl) (zlen d) id) (futs c1)) (heap c1) (disk c1))
+        (g_tasks s ++ [mkTask KWrite f d T1 None]) k'
+  else
+    match info with
+    | Some e => upd (mkClient (c_ops cl) i (CWait (e_fut e) (fl_second fl))) c (g_tasks s) (g_k s)
+    | None => None
+    end.
 
 (* one step of client number t; None = not enabled (finished, or blocked on a future) *)
 Definition client_step (fl : flags) (max : Z) (s : gstate) (t : nat) (cl : client) : option gstate :=
@@ -263,23 +307,11 @@ Definition client_step (fl : flags) (max : Z) (s : gstate) (t : nat) (cl : clien
         end
     (* ---- update_file *)
     | OUpd f d, CStart =>
-        if zlen d >? max then upd (ret_next cl) c (g_tasks s) [ERet t i (RExn EMemory); ECall t i o] (g_k s) else
-        let info := lookup f (futs c) in
-        let writer := match info with None => true | Some e => negb (e_w e) end in
-        if writer then
-          let k' := match info with
-                    | Some e => if inflight (g_tasks s) e then kbit 1 (g_k s) else g_k s
-                    | None => g_k s end in
-          let c1 := unload_core f c in
-          let id := length (g_tasks s) in
-          upd (mkClient (c_ops cl) i (CWait id (fl_first fl)))
-              (mkCore (mem c1) (aset f (mkE (fl_upd_w fl) (zlen d) id) (futs c1)) (heap c1) (disk c1))
-              (g_tasks s ++ [mkTask KWrite f d T1 None]) [ECall t i o] k'
-        else
-          match info with
-          | Some e => upd (mkClient (c_ops cl) i (CWait (e_fut e) (fl_second fl))) c (g_tasks s) [ECall t i o] (g_k s)
-          | None => None
-          end
+        if zlen d >? max then upd (ret_next cl) c (g_tasks s) [ERet t i (RExn EMemory); ECall t i o] (g_k s)
+        else upd_lock fl s t cl i o f d [ECall t i o]
+    | OUpd f d, CAgain => upd_lock fl s t cl i o f d []
+    | OUpd f d, CRetry fut =>                                                (* future.exception(): wait, then retry *)
+        if task_done (g_tasks s) fut then upd (mkClient (c_ops cl) i CAgain) c (g_tasks s) [] (g_k s) else None
     | OUpd f d, CWait fut applied =>
         match nth_error (g_tasks s) fut with
         | Some (mkTask _ _ _ TEnd (Some (OkC _))) => upd (ret_next cl) c (g_tasks s) [ERet t i (RBool applied)] (g_k s)
@@ -288,6 +320,9 @@ Definition client_step (fl : flags) (max : Z) (s : gstate) (t : nat) (cl : clien
         end
     (* ---- unload_file *)
     | OUnl f, CStart =>
+        if busy_entry fl (g_tasks s) (lookup f (futs c)) true then
+          upd (ret_next cl) c (g_tasks s) [ERet t i RNone; ECall t i o] (g_k s)
+        else
         let k' := match lookup f (futs c) with
                   | Some e => if inflight (g_tasks s) e then kbit (if e_w e then 4 else 2) (g_k s) else g_k s
                   | None => g_k s end in
@@ -351,22 +386,46 @@ Fixpoint run (fl : flags) (max : Z) (s : gstate) (sch : list nat) : gstate * opt
       end
   end.
 
-(* ---------------------------------------------------------------- termination measure *)
+(* ---------------------------------------------------------------- termination measure
+   rcount = operations that may still submit a task (gets before their locked block, updates before their
+   final locked block) + tasks not yet completed; it never increases.  An update that has to wait for an
+   in-flight load (busy guard) can be sent round once per such task, hence the 3*R terms. *)
 Definition tpc_weight (p : tpc) : nat := match p with T1 => 4 | T2 => 3 | T3 => 2 | T4 => 1 | TEnd => 0 end.
-Definition op_weight (o : op) : nat := match o with OGet _ => 8 | OUpd _ _ => 6 | OUnl _ => 1 end.
-Definition cur_weight (o : op) (p : cpc) : nat :=
+Definition op_pending (o : op) : nat := match o with OGet _ | OUpd _ _ => 1 | OUnl _ => 0 end.
+Definition cur_pending (o : op) (p : cpc) : nat :=
   match o, p with
-  | OGet _, CStart => 8 | OGet _, CSize => 7 | OGet _, CLock _ => 6 | OGet _, CWait _ _ => 1
-  | OUpd _ _, CStart => 6 | OUpd _ _, _ => 1
-  | OUnl _, _ => 1
+  | OGet _, (CStart | CSize | CLock _) => 1
+  | OUpd _ _, (CStart | CAgain | CRetry _) => 1
+  | _, _ => 0
   end.
-Definition client_weight (cl : client) : nat :=
+Definition client_pending (cl : client) : nat :=
   match skipn (c_idx cl) (c_ops cl) with
   | [] => O
-  | o :: r => (cur_weight o (c_pc cl) + fold_right (fun o a => op_weight o + a) 0 r)%nat
+  | o :: r => (cur_pending o (c_pc cl) + fold_right (fun o a => op_pending o + a) 0 r)%nat
+  end.
+Definition task_pending (k : task) : nat := match k_pc k with TEnd => 0 | _ => 1 end.
+Definition rcount (s : gstate) : nat :=
+  (fold_right (fun cl a => client_pending cl + a) 0 (g_clients s)
+   + fold_right (fun k a => task_pending k + a) 0 (g_tasks s))%nat.
+
+Definition op_weight (R : nat) (o : op) : nat := match o with OGet _ => 8 | OUpd _ _ => 7 + 3 * R | OUnl _ => 1 end.
+Definition cur_weight (R : nat) (ts : list task) (o : op) (p : cpc) : nat :=
+  match o, p with
+  | OGet _, CStart => 8 | OGet _, CSize => 7 | OGet _, CLock _ => 6 | OGet _, _ => 1
+  | OUpd _ _, CStart => 7 + 3 * R
+  | OUpd _ _, CAgain => 3 + 3 * R
+  | OUpd _ _, CRetry f => 4 + 3 * (R - (if task_done ts f then 0 else 1))
+  | OUpd _ _, _ => 1
+  | OUnl _, _ => 1
+  end.
+Definition client_weight (R : nat) (ts : list task) (cl : client) : nat :=
+  match skipn (c_idx cl) (c_ops cl) with
+  | [] => O
+  | o :: r => (cur_weight R ts o (c_pc cl) + fold_right (fun o a => op_weight R o + a) 0 r)%nat
   end.
 Definition weight (s : gstate) : nat :=
-  (fold_right (fun cl a => client_weight cl + a) 0 (g_clients s)
+  let R := rcount s in
+  (fold_right (fun cl a => client_weight R (g_tasks s) cl + a) 0 (g_clients s)
    + fold_right (fun k a => tpc_weight (k_pc k) + a) 0 (g_tasks s))%nat.
 
 (* ---------------------------------------------------------------- quiescent-state agreement *)
@@ -444,6 +503,8 @@ Definition cpc_eqb (a b : cpc) : bool :=
   | CSize, CSize => true
   | CLock x, CLock y => x =? y
   | CWait f p, CWait g q => (f =? g)%nat && Bool.eqb p q
+  | CRetry f, CRetry g => (f =? g)%nat
+  | CAgain, CAgain => true
   | _, _ => false
   end.
 Definition client_eqb (a b : client) : bool :=
@@ -471,7 +532,8 @@ Definition dg (acc : positive) (d : Z) : positive :=
   Pos.add (Pos.mul 16 acc) (Z.to_pos (1 + Z.abs d mod 15)).
 Definition tpc_code (p : tpc) : Z := match p with T1 => 1 | T2 => 2 | T3 => 3 | T4 => 4 | TEnd => 5 end.
 Definition cpc_code (p : cpc) : Z :=
-  match p with CStart => 0 | CSize => 1 | CLock _ => 2 | CWait f a => 3 + 2 * Z.of_nat f + (if a then 1 else 0) end.
+  match p with CStart => 0 | CSize => 1 | CLock _ => 2 | CWait f a => 5 + 2 * Z.of_nat f + (if a then 1 else 0)
+  | CRetry f => 3 + 7 * Z.of_nat f | CAgain => 4 end.
 Definition ev_code (e : event) : Z :=
   match e with
   | ECall t _ _ => 2 * Z.of_nat t
